@@ -4,5 +4,6 @@ CONSTANTS
   MaxEnv = 2
   MaxUpd = 4
   MaxHist = 16
+  Fix = FALSE
 INVARIANTS Emit
 CHECK_DEADLOCK FALSE
